@@ -30,7 +30,7 @@ AllVals == UNION {UNION {Values(v, m) : m \in MetricSet(v)} : v \in VersionSet}
 
 AbvJunk(a) ==
   { a, LowerB(a), UpperB(a), a \o <<32>>, <<32>> \o a, a \o <<0>>, a \o <<COLON>>, a \o <<88>>,
-    <<77>> \o a, <<200>> \o a }
+    <<77>> \o a, <<200>> \o a, <<0>> \o a, <<0, 0>> \o a, <<9>> \o a, a \o <<10>>, <<255>> \o a }
   \cup (IF Len(a) > 1 THEN {SubSeq(a, 1, Len(a) - 1), SubSeq(a, 2, Len(a)),
                             SubSeq(a, 1, Len(a) - 1) \o <<122>>} ELSE {})
 AbvAlphabet == UNION {AbvJunk(SB[a]) : a \in AllAbvs} \cup {<<>>, <<90, 90>>, <<COLON>>, <<SLASH>>}
